@@ -1154,7 +1154,7 @@ func init() {
 					}
 				}
 			}
-			for _, sh := range [][]int{{3}, {2, 3}, {1, 3}, {3, 1}, {2, 2, 2}, {}} {
+			for _, sh := range [][]int{{3}, {2, 3}, {1, 3}, {3, 1}, {2, 2, 2}, {}, {1}, {1, 1}, {1, 1, 1}, {1, 2, 1}} {
 				dimsN := map[int]bool{1: true}
 				for _, d := range sh {
 					dimsN[d] = true
